@@ -56,6 +56,7 @@ ProveStep(l0, e) ==
                   One(e.next = TChallengeValue(ref.tr, LState), l0, "C03", <<"prover transcript state differs from the specification's", n>>, sig("transcript")) \o
                   One(~e.write_err, l0, "C10", "Write failed on a bytes.Buffer", sig("write"))
         bad1 == One(e.inputs_unchanged, l0, "C13", "CreateMultiProof modified polynomials or indices", sig("inputs")) \o
+                One(~Has(e, "tails_unchanged") \/ e.tails_unchanged, l0, "C13", "CreateMultiProof wrote into the spare capacity of a caller's slice", sig("capacity")) \o
                 One(~Has(e, "arrival_forced") \/ e.arrival_ok, l0, "DRIFT", "the forced arrival order of the grouping workers was not the observed one", sig("arrival")) \o
                 \* the worker batches seen at the gate hook against the implementation-shaped model (ProofImpl!GGroup): W = NumCPU
                 \* workers, batch k = [(k-1)*ceil(n/W), k*ceil(n/W)).  A mismatch means the model is stale, not that the property fails.
@@ -94,7 +95,8 @@ VerifyDevs(l0, e) ==
        ELSE IF hon.set /\ e.what # "none"
        THEN One(e.ok, l0, "C02", <<"a statement equal to the honest one as group elements/scalars was rejected (representation dependence)", e.what, e.to>>, sig("representation"))
        ELSE <<>>) \o
-      One(e.inputs_unchanged, l0, "C13", "CheckMultiProof modified its inputs", sig("inputs"))))))
+      One(e.inputs_unchanged, l0, "C13", "CheckMultiProof modified its inputs", sig("inputs")) \o
+      One(~Has(e, "tails_unchanged") \/ e.tails_unchanged, l0, "C13", "CheckMultiProof wrote into the spare capacity of a caller's slice", sig("capacity"))))))
 
 -----------------------------------------------------------------------------
 IpaProveStep(l0, e) ==
@@ -111,6 +113,7 @@ IpaProveStep(l0, e) ==
                      One(e.inputs_unchanged, l0, "C13", "CreateIPAProof modified its polynomial", sig("inputs"))
     IN  <<devs, IF Has(e, "panic") \/ e.err THEN NoHon ELSE [set |-> TRUE, C |-> C, proof |-> ref.proof, point |-> e.point, y |-> y, label |-> e.label]>>)))
 IpaVerifyDevs(l0, e) ==
+  One(~Has(e, "tails_unchanged") \/ e.tails_unchanged, l0, "C13", "CheckIPAProof wrote into the spare capacity of the caller's proof slices", <<"ipa_verify", "capacity">>) \o
   IF ~ihon.set THEN <<>>
   ELSE IF Has(e, "panic") THEN <<Dev(l0, "C02", <<"CheckIPAProof panicked", e.panic>>, <<"ipa_verify", "panic">>)>>
   ELSE IF Has(e, "proof")      \* a proof that differs from the honest one in a single component, offered with the correct result
